@@ -54,6 +54,9 @@ fn parse() -> Args {
         no_evidence: false,
         phase: String::new(),
     };
+    if std::env::var("VERIF_NO_EVIDENCE").map(|v| v == "1").unwrap_or(false) {
+        a.no_evidence = true;
+    }
     if let Ok(t) = std::env::var("VERIF_TIER") {
         if t == "thorough" {
             a.tier = Tier::Thorough;
